@@ -1,0 +1,86 @@
+//go:build verif
+
+// Package verifhook provides schedule points and observation points for the
+// model-based verification harness. It is only active when built with the
+// "verif" build tag; without the tag every function is an empty, inlined no-op.
+package verifhook
+
+import "sync"
+
+// H is the installed hook. point names the action (the label of the
+// specification) the calling goroutine is about to perform; enabled, when not
+// nil, reports whether that action can be performed without blocking.
+var H func(point string, enabled func() bool, a, b int64)
+
+// L is the installed observation hook (never yields).
+var L func(point string, a, b int64, s string)
+
+// Enabled reports whether a hook is installed.
+func Enabled() bool { return H != nil }
+
+// At marks a schedule point before a non-blocking action.
+func At(point string) {
+	if h := H; h != nil {
+		h(point, nil, 0, 0)
+	}
+}
+
+// AtI marks a schedule point and passes two integers to the hook.
+func AtI(point string, a, b int64) {
+	if h := H; h != nil {
+		h(point, nil, a, b)
+	}
+}
+
+// AtIf marks a schedule point before an action that blocks unless enabled().
+func AtIf(point string, enabled func() bool) {
+	if h := H; h != nil {
+		h(point, enabled, 0, 0)
+	}
+}
+
+// AtRLock marks a schedule point before mu.RLock().
+func AtRLock(point string, mu *sync.RWMutex) {
+	if h := H; h != nil {
+		h(point, func() bool {
+			if mu.TryRLock() {
+				mu.RUnlock()
+				return true
+			}
+			return false
+		}, 0, 0)
+	}
+}
+
+// AtLock marks a schedule point before mu.Lock().
+func AtLock(point string, mu *sync.RWMutex) {
+	if h := H; h != nil {
+		h(point, func() bool {
+			if mu.TryLock() {
+				mu.Unlock()
+				return true
+			}
+			return false
+		}, 0, 0)
+	}
+}
+
+// AtMutex marks a schedule point before mu.Lock() of a plain mutex.
+func AtMutex(point string, mu *sync.Mutex) {
+	if h := H; h != nil {
+		h(point, func() bool {
+			if mu.TryLock() {
+				mu.Unlock()
+				return true
+			}
+			return false
+		}, 0, 0)
+	}
+}
+
+// Log records an observation without yielding.
+func Log(point string, a, b int64, s string) {
+	if l := L; l != nil {
+		l(point, a, b, s)
+	}
+}
